@@ -14,7 +14,7 @@ CHECKS = {
  "C03": ("bounded exhaustive input enumeration vs. reference model (all byte strings <=2 (3), all legal strings <=4 (5), 1- and 2-character deviations at every position of every length <=96 and around 384/512/1000; fill 0..5; three builds)",
          "Every string of the stated spaces is enumerated (no sampling) and the real unarmor() output is compared byte for byte with an independent 6-bit unpacking model; the function is position-periodic with period 4 characters, so all strings up to one full period plus one/two deviations at every position of long strings cover every (phase, fill, character) combination.",
          "Exhaustive within the listed spaces only; reference model spec::unarmor is mine; rustc/catch_unwind trusted.", "DESIGN.md §2.3, §3.3, §4 C03"),
- "C04": ("bounded exhaustive payload enumeration vs. table-driven ITU-R M.1371 reference decoder: Hamming ball r<=2 around 4 base patterns of 47 layout variants; all 2^w values x 16 neighbour contexts of every integer/flag/id field (w<=14 quick, <=20 thorough); every PAIR of fields x 7x7 boundary values; 256 dense fillings per layout x every single-bit deviation; wide fields: all values within distance 3 of anchors + all 2^18 high/low settings (thorough: complete 2^30 sweeps of MMSI (types 1, 24B), IMO number, destination MMSI); same payloads through the sentence path with every fill count",
+ "C04": ("bounded exhaustive payload enumeration vs. table-driven ITU-R M.1371 reference decoder: Hamming ball r<=2 around 4 base patterns of 47 layout variants; all 2^w values x 16 neighbour contexts of every integer/flag/id field (w<=14 quick, <=20 thorough); every PAIR of fields x 7x7 boundary values; 256 dense fillings per layout x every single-bit deviation; wide fields: all values within distance 3 of anchors + all 2^18 high/low settings (thorough: complete 2^30 sweeps of MMSI (types 1, 24B), IMO number, destination MMSI); same payloads through the sentence path with every fill count; std and no-allocator builds",
          "A field read one bit early, a width off by one, two swapped fields or a missed spare changes the decode of at least one weight-1/weight-2 payload; 'independently of the neighbours' is the neighbour-context product. The reference tables are written from the standard, not from the crate, and every decoded field is compared by name.",
          "The joint space of a whole message (2^168) is outside: payloads differing from every base pattern in >2 bits and in >1 field at once are not enumerated; 30-bit fields other than the source MMSI are swept in 2x18 of their bits.", "DESIGN.md §2.4, §3.4, §4 C04"),
  "C05": ("bounded exhaustive history enumeration (differential oracle) + explicit-state exploration: one decodable payload per layout x every 2-split, every 3-split (<=34 / <=80 chars), every composition of a 12-char payload into 2..9 parts x 7 ids x 5 prior histories x 5 noise patterns x decode; BFS of the real parser to closure with a reference monitor as step oracle; 255-fragment chains",
